@@ -50,14 +50,14 @@ CHECKS = {
                 text="the end of life of a root transaction is proved (RootTransaction._close_impl, _do_commit, _deactivate_from_connection, 148 obligations over all paths incl. the DBAPI rollback/commit raising): it is deactivated and `connection._transaction is not self` on every exit of rollback/close, so an invalidated connection never keeps a dead transaction that would block reconnecting. Bounded complement: a disconnect / ordinary error injected at every DBAPI call position of every history on a fake DBAPI, 4 handle_error listener modes.",
                 note="abstract contracts on Connection._rollback_impl/_commit_impl and NestedTransaction._cancel; _handle_dbapi_exception, invalidate, pool invalidation bounded only; real drivers' is_disconnect outside"),
     "C28": dict(level="proof", technique=PROOF_TECH, design="DESIGN.md §5 C28",
-                text="_ClsLevelDispatch.update_subclass is proved for any MRO and any prior registry state: afterwards the target's collection holds, after what it held, every listener of every ancestor that has a collection, nothing else, and every other class's collection is untouched (loop invariant over the MRO). Bounded complement: listen/remove/dispatch histories against a ghost registry.",
-                note="other listener containers (_ListenerCollection, _EventKey, registry, exec_once) are bounded only; WeakKeyDictionary modelled as dict"),
+                text="_ClsLevelDispatch.update_subclass is proved for any MRO and any prior registry state: afterwards the target's collection holds, after what it held, every listener of every ancestor that has a collection, nothing else, and every other class's collection is untouched (loop invariant over the MRO). The exec-once family of _CompoundListener (_exec_once_impl, exec_once, exec_once_unless_exception) is proved in the monitor-with-interference reading: with two ghost counters (successful dispatches, final failures) the invariant `ok + final <= 1 and _exec_once == (ok + final == 1)` holds at every release of the exec-once mutex whatever other threads do (counters monotone: rely/guarantee), so exec_once dispatches at most once overall and nothing dispatches again after a success. Bounded complement: listen/remove/dispatch histories against a ghost registry, incl. nested and concurrent (two threads, forced schedule) dispatches of once listeners.",
+                note="other listener containers (_ListenerCollection, _EventKey, registry), util.only_once and _exec_w_sync_on_first_run bounded only; WeakKeyDictionary modelled as dict; interleaving granularity = statements outside the mutex"),
     "C36": dict(level="proof", technique=PROOF_TECH, design="DESIGN.md §5 C36",
                 text="History.from_scalar_attribute and from_object_attribute are proved against the documented conventions for every combination of committed value / current value / sentinels (all paths). Bounded complement: mutation sequences on mapped attributes incl. flush.",
                 note="is_equal pure; from_collection, the attribute impls and _modified_event are bounded only"),
     "C38": dict(level="proof", technique=PROOF_TECH, design="DESIGN.md §5 C38",
-                text="the instrumented list operations with an integer index (append, insert, remove, __setitem__, __delitem__, pop) are proved to produce list's contents, return value and exception and exactly the right ghost event log, for lists of any length; remove(absent) firing an event is a KNOWN-FINDING. All 13 instrumented set operations (add, discard, remove, pop, clear, update, difference_update, intersection_update, symmetric_difference_update, |= -= &= ^=) are proved for set arguments: members as the builtin's, and an event log that accounts exactly (order-insensitively for the bulk operations) for the members that arrived and left. Bounded complement: all list/set/dict operations incl. slices side by side with the builtins.",
-                note="assumed contracts on the event helpers __set/__set_wo_mutation/__del; list slices, extend, clear, dict decorators and non-set iterable arguments bounded only"),
+                text="the instrumented list operations with an integer index (append, insert, remove, __setitem__, __delitem__, pop) and extend / += / clear are proved to produce list's contents, return value and exception and exactly the right ghost event log, for lists of any length; remove(absent) firing an event is a KNOWN-FINDING. All 13 instrumented set operations (add, discard, remove, pop, clear, update, difference_update, intersection_update, symmetric_difference_update, |= -= &= ^=) are proved for set arguments: members as the builtin's, and an event log that accounts exactly (order-insensitively for the bulk operations) for the members that arrived and left; dict __setitem__, __delitem__, pop, popitem, setdefault, clear likewise (events over the values). Bounded complement: all list/set/dict operations incl. slices side by side with the builtins.",
+                note="assumed contracts on the event helpers __set/__set_wo_mutation/__del; list slices, dict update(**kw) and non-set iterable arguments bounded only"),
     "C35": dict(level="proof", technique=PROOF_TECH, design="DESIGN.md §5 C35",
                 text="the five InstanceState lifecycle predicates are proved equal to their documented definitions over (key is None, _attached, _deleted) and the partition (exactly one holds) is a full-domain lemma over those postconditions; native replay on all 8 valuations.",
                 note="transitions and events are not under contract here; `_attached` is read as a boolean attribute"),
